@@ -1,6 +1,6 @@
 (* Correspondence runner for C17: strings with what PathParser::parse did (result + builder calls). *)
 From Coq Require Import QArith.
-From LV Require Import Base.Prelude Base.F32 Model.Parser.
+From LV Require Import Base.Prelude Base.F32 Model.Parser Model.Printer.
 Open Scope Z_scope.
 
 (* ---- instantiation: f32 arithmetic on Q ---- *)
@@ -98,3 +98,14 @@ Definition bad_cases (cs : list pcase) : list (Z * list Z) :=
              (if list_eqb pcall_eqb calls (pc_calls c) then [] else [2]) ++
              (if pnested Q false (pc_calls c) then [] else [3]) in
     match d with [] => [] | _ => [(pc_id c, d)] end) cs.
+
+(* ---- printer correspondence: the Debug printer of a stored path (quotes stripped) against
+   Model/Printer.v; numbers are represented by their printed texts ([fmt] = identity), which must
+   have the shape assumed by the round-trip theorem ---- *)
+Record prcase := mkPR { pr_id : Z; pr_calls : list (pcall (list Z)); pr_text : list Z }.
+
+Definition print_bad_cases (cs : list prcase) : list Z :=
+  flat_map (fun c =>
+    if list_eqb Z.eqb (print (list Z) (fun x => x) (pr_calls c)) (pr_text c)
+       && forallb (fun k => forallb num_shape (call_nums (list Z) k)) (pr_calls c)
+    then [] else [pr_id c]) cs.
